@@ -166,6 +166,58 @@ def time_atom(cond):
     return d.scale(-1), '<='
 
 
+NEG = {'lt': 'ge', 'le': 'gt', 'gt': 'le', 'ge': 'lt', 'eq': 'ne', 'ne': 'eq'}
+FLIP = {'lt': 'gt', 'le': 'ge', 'gt': 'lt', 'ge': 'le', 'eq': 'eq', 'ne': 'ne'}
+
+
+def cmp_norm(v):
+    """(op, a, b) with op in lt/le/gt/ge/eq/ne for a comparison term, looking through Not(..)
+    (negating) and lower/upper-case spellings; None if v is not a comparison"""
+    neg = False
+    while v[0] == 't' and v[1] == 'Not' and len(v[2]) == 1:
+        neg = not neg
+        v = v[2][0]
+    if v[0] != 't' or v[1].lower() not in NEG or len(v[2]) != 2:
+        return None
+    op = v[1].lower()
+    if neg:
+        op = NEG[op]
+    return op, v[2][0], v[2][1]
+
+
+def cmp_const_right(v):
+    """(op, x, c) with the integer constant on the right-hand side, or None"""
+    from .. import arith
+    n = cmp_norm(v)
+    if n is None:
+        return None
+    op, a, b = n
+    ca, cb = arith.const_num(arith.strip_casts(a)), arith.const_num(arith.strip_casts(b))
+    if cb is not None and ca is None:
+        return op, a, cb
+    if ca is not None and cb is None:
+        return FLIP[op], b, ca
+    return None
+
+
+def unsigned_ge(op, c):
+    """for an unsigned x: does `x op c` mean x >= k?  returns (k, truth) meaning the comparison is
+    equivalent to (x >= k) == truth, or None"""
+    if op == 'ge':
+        return c, True
+    if op == 'gt':
+        return c + 1, True
+    if op == 'lt':
+        return c, False
+    if op == 'le':
+        return c + 1, False
+    if op == 'ne' and c == 0:
+        return 1, True
+    if op == 'eq' and c == 0:
+        return 1, False
+    return None
+
+
 INF = float('inf')
 
 
